@@ -151,7 +151,7 @@ func runC09(c *core.Ctx) {
 		// the last step's products and the final-product directory derived from them
 		products := map[string]string{"pkg.tar": "PKG\nline2\n", "doc.txt": "documentation\n"}
 		final := map[string]string{"keep": "x"} // InTotoVerifyWithDirectory wants a non-empty directory
-		delta := []string{"untouched", "added", "removed", "modified", "line-endings-only"}[r.Intn(5)]
+		delta := []string{"untouched", "added", "removed", "modified", "line-endings-only", "added-non-ascii-name"}[r.Intn(6)]
 		if i%4 == 0 {
 			delta = "untouched"
 		}
@@ -161,6 +161,8 @@ func runC09(c *core.Ctx) {
 		switch delta {
 		case "added":
 			final["added.bin"] = "extra"
+		case "added-non-ascii-name":
+			final[[]string{"é.evil", "payload-ü.evil", "更新.evil", "Ünï.evil"}[r.Intn(4)]] = "extra"
 		case "removed":
 			delete(final, "doc.txt")
 		case "modified":
@@ -207,10 +209,20 @@ func runC09(c *core.Ctx) {
 		lmd.Dump(filepath.Join(linkDir, gen.LinkName("package", fast[1].Pub.KeyID)))
 		// inspections
 		nInsp := r.Intn(4)
+		if delta == "added-non-ascii-name" && nInsp == 0 {
+			nInsp = 1
+		}
 		var specs []inspSpec
 		var inspections []intoto.Inspection
 		for j := 0; j < nInsp; j++ {
 			s := inspSpec{Name: fmt.Sprintf("insp%d", j), Mats: c09Rules(r, prefix, false), Prods: c09Rules(r, prefix, true)}
+			if delta == "added-non-ascii-name" && (j == 0 || r.Intn(2) == 0) {
+				s.Mats = append([][]string{{"DISALLOW", prefix + "*.evil"}}, s.Mats...)
+				if j == 0 && r.Intn(2) == 0 {
+					// the pattern alone decides
+					s.Mats, s.Prods = [][]string{{"DISALLOW", prefix + "*.evil"}, {"ALLOW", "*"}}, [][]string{{"ALLOW", "*"}}
+				}
+			}
 			switch r.Intn(9) {
 			case 0:
 				s.Actions = []string{"create:made-by-inspection:hello"}
@@ -398,7 +410,7 @@ func init() {
 	core.Register(&core.Property{
 		ID:    "C09",
 		Level: "exploration",
-		Rule: "seeded cases: final-product directory = the last step's products with files {untouched, added, removed, modified, modified in line endings only}, in a quarter of the cases plus a symlink to a directory that sorts first; 0-3 inspections whose command is `vhelper inspect` with an action from {no-op, create / modify / delete a file, replace a file by other content of the same size with its modification time restored, exit 1/2/127/255, kill 9/15} or a missing / non-executable program; inspection rule lists drawn from a 17-21-rule vocabulary (MATCH against the last step's products/materials with and without IN <run dir>, against an earlier inspection, ALLOW/DISALLOW/REQUIRE/CREATE/MODIFY/DELETE with run-dir-prefixed names) + terminal DISALLOW *; step link recorded with sha256 / sha256+sha512 / sha512 only; step-phase defect in 1/7 of the cases; entry points plain, run dir relative, run dir absolute; both wrappers; line normalisation on in 1/3. Oracle: reference rule interpreter over the directory snapshots the command itself logged (before/after, raw or normalised digests) and the step links; execution order / exactly once / not after a failing command / not before the step checks from the log and the inspection_exec events. " +
+		Rule: "seeded cases: final-product directory = the last step's products with files {untouched, added, added under a non-ASCII name that a DISALLOW *.evil rule must catch, removed, modified, modified in line endings only}, in a quarter of the cases plus a symlink to a directory that sorts first; 0-3 inspections whose command is `vhelper inspect` with an action from {no-op, create / modify / delete a file, replace a file by other content of the same size with its modification time restored, exit 1/2/127/255, kill 9/15} or a missing / non-executable program; inspection rule lists drawn from a 17-21-rule vocabulary (MATCH against the last step's products/materials with and without IN <run dir>, against an earlier inspection, ALLOW/DISALLOW/REQUIRE/CREATE/MODIFY/DELETE with run-dir-prefixed names) + terminal DISALLOW *; step link recorded with sha256 / sha256+sha512 / sha512 only; step-phase defect in 1/7 of the cases; entry points plain, run dir relative, run dir absolute; both wrappers; line normalisation on in 1/3. Oracle: reference rule interpreter over the directory snapshots the command itself logged (before/after, raw or normalised digests) and the step links; execution order / exactly once / not after a failing command / not before the step checks from the log and the inspection_exec events. " +
 			"non-trivial = at least one inspection; distinct = hash of the whole case",
 		Assumptions: []string{"an empty run list is not generated (the statement does not say what should happen)", "the snapshot taken inside the command equals what the library records directly before/after it"},
 		Workers:     func(string) int { return 16 },
